@@ -1220,16 +1220,24 @@ class MountPointStore(RoutingStore):
                 return self.finalize_metadata({}, key, is_dir=True)
         raise KeyNotFoundStoreException(key=key, store=self)
 
+    def contains(self, key):
+        if self.is_dir(key):
+            return True
+        try:
+            return self.route_to(key).contains(key)
+        except KeyRouteNotFoundStoreException:
+            return False
+
     def is_dir(self, key):
         if key == "":
             return True
+        for route, _ in self.routing_table:
+            if route == key or route.startswith(key + "/"):
+                return True
         try:
             return self.route_to(key).is_dir(key)
         except KeyRouteNotFoundStoreException:
-            for route, _ in reversed(self.routing_table):
-                if route == key or route.startswith(key + "/"):
-                    return self.finalize_metadata({}, key, is_dir=True)
-        return False
+            return False
 
     def keys(self):
         prefixes = []
